@@ -13,11 +13,12 @@ use std::sync::Arc;
 
 pub struct Legacy {
     ctx: CapabilityContext<Op, Event>,
+    uni: Arc<UniCtx>,
 }
 
 impl Clone for Legacy {
     fn clone(&self) -> Self {
-        Legacy { ctx: self.ctx.clone() }
+        Legacy { ctx: self.ctx.clone(), uni: self.uni.clone() }
     }
 }
 
@@ -51,6 +52,12 @@ impl Rt for Legacy {
     fn yield_now(&self) -> BoxFuture<'static, ()> {
         self_waking_yield()
     }
+    fn chan_send(&self, c: usize, v: u32) {
+        self.uni.chans[c].send(v)
+    }
+    fn chan_recv(&self, c: usize) -> BoxFuture<'static, u32> {
+        self.uni.chans[c].recv()
+    }
     fn export(&self, _key: Path, _h: JoinH) {}
 }
 
@@ -58,7 +65,7 @@ impl Rt for Legacy {
 pub fn run_program(sim: &Sim<Event>, uni: &Arc<UniCtx>, c: &Cmd) {
     match c {
         Cmd::Async(id, task) => {
-            let rt = Legacy { ctx: sim.ctx.clone() };
+            let rt = Legacy { ctx: sim.ctx.clone(), uni: uni.clone() };
             sim.ctx.spawn(task_root(rt, uni.sink.clone(), vec![*id], task.clone()));
         }
         Cmd::All(cs) | Cmd::Collect(cs) => cs.iter().for_each(|c| run_program(sim, uni, c)),
@@ -75,8 +82,8 @@ pub fn expressible(c: &Cmd) -> bool {
     fn stmts_ok(t: &[Stmt]) -> bool {
         t.iter().all(|s| match s {
             Stmt::Join(_) | Stmt::AbortT(_) | Stmt::Export(_) | Stmt::JoinBig(_) | Stmt::AbortCmd(_) => false,
-            Stmt::StreamLoop(_, b) | Stmt::Spawn(b) => stmts_ok(b),
-            Stmt::JoinN(bs) | Stmt::Select(bs) => bs.iter().all(|b| stmts_ok(b)),
+            Stmt::StreamLoop(_, b) | Stmt::Spawn(b) | Stmt::Fan(_, b) => stmts_ok(b),
+            Stmt::JoinN(bs) | Stmt::Select(bs) | Stmt::SelectKeep(bs) => bs.iter().all(|b| stmts_ok(b)),
             _ => true,
         })
     }
